@@ -7,7 +7,10 @@ use crate::engine::{hash64, CaseOutcome, Check, Status, Tier};
 use serde_json::{json, Value};
 use std::collections::{BTreeSet, HashMap};
 
-pub const CORPUS: [&str; 47] = [
+pub const CORPUS: [&str; 49] = [
+    // long-branch repairs (labels numbered by the repair pass)
+    "char v, w;\nvoid main() { do { v = w + 3; v = w + 3; v = w + 3; v = w + 3; v = w + 3; v = w + 3; v = w + 3; v = w + 3; v = w + 3; v = w + 3; v = w + 3; v = w + 3; v = w + 3; v = w + 3; v = w + 3; v = w + 3; v = w + 3; v = w + 3; v = w + 3; v = w + 3; Y--; } while (Y); }\n",
+    "char v, w;\nvoid f() { if (v) { v = w + 3; v = w + 3; v = w + 3; v = w + 3; v = w + 3; v = w + 3; v = w + 3; v = w + 3; v = w + 3; v = w + 3; v = w + 3; v = w + 3; v = w + 3; v = w + 3; v = w + 3; v = w + 3; v = w + 3; v = w + 3; v = w + 3; v = w + 3; } }\nvoid main() { do { v = w + 3; v = w + 3; v = w + 3; v = w + 3; v = w + 3; v = w + 3; v = w + 3; v = w + 3; v = w + 3; v = w + 3; v = w + 3; v = w + 3; v = w + 3; v = w + 3; v = w + 3; v = w + 3; v = w + 3; v = w + 3; v = w + 3; v = w + 3; Y--; } while (Y); f(); if (w) { v = w + 3; v = w + 3; v = w + 3; v = w + 3; v = w + 3; v = w + 3; v = w + 3; v = w + 3; v = w + 3; v = w + 3; v = w + 3; v = w + 3; v = w + 3; v = w + 3; v = w + 3; v = w + 3; v = w + 3; v = w + 3; v = w + 3; v = w + 3; } }\n",
     // string literals
     "char r;\nchar k(char *p) { return p[Y]; }\nvoid main() { r = k(\"ab\") | k(\"zz\"); }\n",
     "char r;\nchar k(char *p, char *q) { return p[Y] + q[Y]; }\nvoid main() { r = k(\"one\", \"two\") + k(\"three\", \"four\"); }\n",
@@ -249,7 +252,7 @@ impl Check for C05 {
         "exploration"
     }
     fn rule(&self) -> String {
-        "A fixed corpus of 47 programs built to have ties and multi-element maps (2-4 string literals in one expression, in nested calls, in local initialisers and tables; prototypes followed by definitions with and without parameters; many variables/functions; two and three interrupt handlers with callees; inline chains; macro chains; all memory classes; programs that end in each kind of diagnostic; label-counter and long-branch state) is compiled (i) in fresh processes under hash seeds 0..15 (quick) / 0..63 (thorough) supplied through an LD_PRELOAD shim on getrandom() - the check verifies on a probe HashMap that the seeds really change std's iteration order, (ii) twice with the same seed, (iii) in-process after every other corpus program (all ordered pairs; thorough: also triples and the same program twice). Oracle: byte-identical compilation record (ordered variables with definitions, ordered functions with emitted text and sizes, call tree, in-use set, preprocessed text, line map, or the diagnostic). Non-trivial = seeds changed the probe order; distinct = distinct programs.".into()
+        "A fixed corpus of 49 programs built to have ties and multi-element maps (2-4 string literals in one expression, in nested calls, in local initialisers and tables; prototypes followed by definitions with and without parameters; many variables/functions; two and three interrupt handlers with callees; inline chains; macro chains; all memory classes; programs that end in each kind of diagnostic; label-counter and long-branch state) is compiled (i) in fresh processes under hash seeds 0..15 (quick) / 0..63 (thorough) supplied through an LD_PRELOAD shim on getrandom() - the check verifies on a probe HashMap that the seeds really change std's iteration order, (ii) twice with the same seed, (iii) in-process after every other corpus program (all ordered pairs; thorough: also triples and the same program twice). Oracle: byte-identical compilation record (ordered variables with definitions, ordered functions with emitted text and sizes, call tree, in-use set, preprocessed text, line map, or the diagnostic). Non-trivial = seeds changed the probe order; distinct = distinct programs.".into()
     }
     fn assumptions(&self) -> Vec<String> {
         vec!["std::collections::HashMap obtains its keys through getrandom(), which the shim answers deterministically from VCHECK_HASH_SEED".into(), "warnings printed on stdout are not part of the compared record".into()]
